@@ -490,6 +490,23 @@ class TmpBlk:
         return x * self.w
 
 
+def _mk_unique_cls(modname: str, add: bool):
+    class unique:                      # the class is literally named `unique`
+        __module__ = modname
+
+        def __init__(self, w):
+            self.w = np.float32(w)
+
+        def __call__(self, x):
+            return x + self.w if add else x * self.w
+    return unique
+
+
+# `unique` counter of class `unique` in namespace a  vs  shared counter of class `unique` in namespace a.unique
+UniqA = onnx_function(unique=True, namespace="a")(_mk_unique_cls(__name__ + ".nsa", False))
+UniqB = onnx_function(namespace="a.unique")(_mk_unique_cls(__name__ + ".nsb", True))
+
+
 PROBES = {
     # id: (what is exercised)
     "static_bool_kwarg_false": "class __call__(self, x, flag=True) branching on flag, called with flag=False",
@@ -503,6 +520,8 @@ PROBES = {
     "temporary_instances": "two decorated instances created and dropped inside the traced function",
     "single_temporary_instance": "one decorated instance created inside the traced function",
     "tuple_output": "decorated callable returning a tuple of two arrays",
+    "domain_name_collision": "two decorated classes both named `unique`, namespaces 'a' (unique=True) and "
+                             "'a.unique' (default), two instances each",
     "input_param_name_capture": "input_params={'deterministic': True}; one call forwards it, a second call of "
                                 "the same instance hard-codes deterministic=False",
     "input_param_auto_injected": "input_params={'deterministic': False}; the block (default deterministic=True) "
@@ -553,6 +572,10 @@ def _build_probe(p: Prog) -> None:
         p.fn = lambda x: TmpBlk(3.0)(TmpBlk(2.0)(x))
     elif pid == "single_temporary_instance":
         p.fn = lambda x: TmpBlk(2.0)(x)
+    elif pid == "domain_name_collision":
+        u1, u2, s1, s2 = UniqA(2.0), UniqA(4.0), UniqB(8.0), UniqB(16.0)
+        p.keep += [u1, u2, s1, s2]
+        p.fn = lambda x: (u1(x), u2(x), s1(x), s2(x))
     elif pid == "tuple_output":
         blk = TwoOutD([0.5, 1.0, -2.0])
         p.keep.append(blk)
